@@ -89,3 +89,25 @@ Definition wf_owner (o : owner) (s : st) : Prop :=
   (* AASd-118: if a supplemental semantic ID is defined, there shall also be a main semantic ID *)
   | OSem => items s <> [] -> gaid s <> GNone
   end.
+
+(* ---- AASd-005: a revision requires a version; both are VersionType/RevisionType strings --- *)
+Definition s_valid (a : sarg) : Prop := match a with SNone | SOk _ => True | _ => False end.
+Definition wf_adm (s : adm) : Prop :=
+  s_valid (aver s) /\ s_valid (arev s) /\ (arev s <> SNone -> aver s <> SNone).
+
+(* ---- BasicEventElement: max_interval is not applicable for direction = input; last_update
+   is given in UTC (class docstring) *)
+Definition wf_bee (s : bee) : Prop := (bin s = true -> bmax s = false) /\ blast s <> UOther.
+
+(* ---- category: a NameType; AASd-090 for data elements.  The SDK exempts File and Blob
+   (submodel.py DataElement._set_category); the text of AASd-090 does not. *)
+Definition category_is_name (c : carg) : Prop := c <> CEmpty /\ c <> CInvalid.
+Definition wf_category (k : ckind) (c : carg) : Prop :=
+  category_is_name c /\ (k = CDataElement -> c = CNone \/ c = CAllowed).
+Definition wf_category_090_text (k : ckind) (c : carg) : Prop :=
+  category_is_name c /\ (k <> COther -> c = CNone \/ c = CAllowed).
+
+(* ---- language string sets: non-empty, every key a language tag, every text within the
+   limits of the constrained type (c = true) *)
+Definition wf_lss (c : bool) (l : lss) : Prop :=
+  l <> [] /\ Forall (fun e => tag_ok (fst e) = true /\ (c = true -> snd e = true)) l.
